@@ -488,6 +488,7 @@ func smallCuts(a *acc, sp *seqSpace, idx int, maxParts int) {
 			multiPosition(a, parts)
 			if len(d) <= nestedJoinLen {
 				runNestedJoins(a, parts)
+				runCallerReuse(a, parts)
 			}
 		})
 	}
